@@ -34,6 +34,7 @@ def run(ctx):
     ctx.guard(rule_b, ctx, ix)
     ctx.guard(rule_c, ctx, ix)
     ctx.guard(rule_d, ctx, ix)
+    ctx.guard(rule_e, ctx, ix)
 
 
 def rule_a(ctx, ix):
@@ -228,3 +229,71 @@ def rule_d(ctx, ix):
             n += 1
             if not bad:
                 ctx.ob(R, f.construct, 'no loop mutates the collection it iterates', True)
+
+
+def _conjuncts(test):
+    if isinstance(test, ast.BoolOp) and isinstance(test.op, ast.And):
+        out = []
+        for v in test.values:
+            out.extend(_conjuncts(v))
+        return out
+    return [test]
+
+
+def rule_e(ctx, ix):
+    """A subset that may belong to a group is detached from its dataset only together with its group membership."""
+    R = 'C06.e'
+    ctx.describe(R, 'every loop that deletes subsets of a dataset / group keeps the group side consistent', floor=4)
+    n = 0
+    for name, mod in sorted(ix.modules.items()):
+        owners = {}
+        for cl in [x for x in ast.walk(mod.tree) if isinstance(x, ast.ClassDef)]:
+            for ch in cl.body:
+                owners[id(ch)] = cl.name
+        for fn in [x for x in ast.walk(mod.tree) if isinstance(x, (ast.FunctionDef, ast.AsyncFunctionDef))]:
+            pm = None
+            fq = ('%s.%s' % (owners[id(fn)], fn.name)) if id(fn) in owners else fn.name
+            for c in walk_no_nested(fn):
+                if not (isinstance(c, ast.Call) and isinstance(c.func, ast.Attribute) and c.func.attr == 'delete' and not c.args
+                        and isinstance(c.func.value, ast.Name)):
+                    continue
+                v = c.func.value.id
+                pm = pm or parent_map(fn)
+                chain = guard_chain(pm, c, fn)
+                loops = [g for g, br in chain if isinstance(g, ast.For) and isinstance(g.target, ast.Name) and g.target.id == v]
+                if not loops:
+                    continue
+                it = unparse(loops[0].iter).replace(' ', '')
+                inner = it[5:-1] if it.startswith('list(') else it
+                if not inner.endswith('.subsets'):
+                    continue
+                n += 1
+                owner = inner[:-len('.subsets')]
+                construct = '%s:%s `%s.delete()` over %s' % (name, fq, v, inner)
+                # (a) the whole group leaves the collection
+                whole = any(call_name(x) == 'remove' and unparse(x.func.value).endswith('_subset_groups') and x.args and unparse(x.args[0]) == owner
+                            for x in calls_in(fn))
+                # (b) the group's own list is updated beside the deletion
+                paired = any(call_name(x) == 'remove' and unparse(x.func.value).endswith('.subsets') and x.args and unparse(x.args[0]) == v
+                             for x in calls_in(loops[0]))
+                # (c) grouped subsets of groups that stay are excluded
+                excluded, mentions = False, False
+                for g, br in chain:
+                    if isinstance(g, ast.If) and br == 'body':
+                        for a in _conjuncts(g.test):
+                            t = unparse(a).replace(' ', '')
+                            if 'group' in t.lower():
+                                mentions = True
+                            if t == 'notisinstance(%s,GroupedSubset)' % v:
+                                excluded = True
+                            if 'notin' in t and 'subset_groups' in t and 'group' in t.split('notin')[0] and v in t.split('notin')[0]:
+                                excluded = True
+                ok = whole or paired or excluded
+                ctx.idiom(R, construct, 'the deleted subsets are ungrouped, or leave their group / the group leaves the collection as well',
+                          accepted=ok, absent=not mentions or True,
+                          detail_absent='%s:%s deletes every subset `%s` of %s that passes its test, including grouped subsets whose group stays '
+                                        'in the collection: the group keeps listing a subset its dataset no longer carries, and the dataset '
+                                        'has no subset for that group' % (name, fq, v, inner),
+                          shape=it, where='%s:%d' % (mod.relpath, c.lineno))
+    if n < 4:
+        raise AnalysisError('C06.e: only %d subset-deleting loops found' % n)
